@@ -19,7 +19,7 @@ ASSUMPTIONS = [
 
 def tasks(tier):
     return [A.NegAcceptTask("C13/"), A.CheckIdentityTask("C13/"), codec.LayoutTask("A_ASSOCIATE_RQ", 1, "C13/"),
-            A.WireTitleTask("calling", "C13/"), A.WireTitleTask("called", "C13/"), A.UnbindTask("C13/"), _send_reject(), A.CheckExtendedTask("common", "C13/"), A.CheckExtendedTask("extended", "C13/"), A.DefaultHandlersTask("C13/"), A.CheckAsyncOpsTask("C13/")]
+            A.WireTitleTask("calling", "C13/"), A.WireTitleTask("called", "C13/"), A.UnbindTask("C13/"), _send_reject(), A.CheckExtendedTask("common", "C13/"), A.CheckExtendedTask("extended", "C13/"), A.DefaultHandlersTask("C13/"), A.CheckAsyncOpsTask("C13/"), A.UserIdentityGetterTask("C13/")]
 
 
 def replay(rec):
